@@ -35,17 +35,19 @@ def reader(src, ignore_comments=True, process_directives=False, include_dirs=Non
 
 
 def esc_site(exc):
-    """(type name, qualified name of the innermost fparser frame) of an escaped exception."""
+    """(type name, innermost fparser frame, the fparser frame that called it) of an escaped exception."""
     tb = exc.__traceback__
-    site = "?"
+    frames = []
     while tb is not None:
         co = tb.tb_frame.f_code
         fn = co.co_filename
         if "fparser" in fn and "/verif/" not in fn:
             qual = getattr(co, "co_qualname", co.co_name)
-            site = os.path.basename(fn)[:-3] + "." + qual
+            frames.append(os.path.basename(fn)[:-3] + "." + qual)
         tb = tb.tb_next
-    return type(exc).__name__, site
+    site = frames[-1] if frames else "?"
+    via = next((f for f in reversed(frames[:-1]) if f != site), "?")
+    return type(exc).__name__, site, via
 
 
 _FSE = re.compile(r"at line (\d+)\n>>>(.*)\n", re.S)
@@ -57,8 +59,8 @@ def outcome_of_exception(e):
         if m:
             return {"res": "fse", "line": int(m.group(1)), "quoted": m.group(2).split("\n")[0], "msg": str(e)[:300]}
         return {"res": "fse", "line": 0, "quoted": "", "msg": str(e)[:300]}
-    t, s = esc_site(e)
-    return {"res": "esc", "type": t, "site": s, "msg": str(e)[:200]}
+    t, s, via = esc_site(e)
+    return {"res": "esc", "type": t, "site": s, "via": via, "msg": str(e)[:200]}
 
 
 def parse(parser, src, **kw):
